@@ -2,6 +2,7 @@ import Driver.Util
 import Torf.Spec.Verify
 import Torf.Spec.VerifyFs
 import Torf.Model.VerifyCall
+import Torf.Model.VerifySpelling
 open Lean Torf Torf.Missing Torf.Verify Torf.VerifyFs Torf.VerifyCall
 namespace Driver.C02
 
@@ -94,18 +95,8 @@ def kindStr : ErrKind → String
   | .read => "read"
   | .size => "size"
 
-/-- op `c02.verifyfs`: as `c02.verify` over the full alphabet -/
-def verifyfs (j : Json) : Except String Json := do
-  let L ← getNat j "L"
-  let sizes ← getNats j "sizes"
-  let states ← getArr j "disk"
-  let flipsJ ← getArr j "flips"
-  let flips ← flipsJ.mapM fun f => do
-    let a ← f.getArr?
-    if h : a.size = 2 then return ((← a[0].getNat?), (← a[1].getNat?)) else throw "flip must be a pair"
-  let single ← getBool j "single"
-  let pathIsDir ← getBool j "pathIsDir"
-  let fd ← mkFs sizes states flips
+/-- everything the harness wants to know about `verify` on the description `fd` -/
+def fsReply (L : Nat) (sizes : List Nat) (fd : List (FState Nat)) (single pathIsDir : Bool) : Json :=
   let orig := mkFiles sizes
   let stored : List (List Nat) := chunks L orig.flatten
   let H : List Nat → List Nat := id
@@ -120,7 +111,7 @@ def verifyfs (j : Json) : Except String Json := do
   let fault : Json := match run with
     | some ⟨_, some (f, e)⟩ => jarr [jnat f, jnat e]
     | _ => Json.null
-  return jobj [
+  jobj [
     ("nocb", resJson r0), ("cb", resJson r1), ("calls", jarr (calls.map callJson)),
     ("errnos", jarr errnos), ("fault", fault),
     ("specOk", jbool (SpecOkFs H L sizes fd stored)),
@@ -138,35 +129,124 @@ def verifyfs (j : Json) : Except String Json := do
     ("noReadErr", jbool (NoReadErr fd)), ("noSilent", jbool (NoSilent sizes fd)),
     ("d10a", jbool (BadEmptyAtBoundary L sizes md))]
 
-/-- op `c02.verifycall`: the reply of `c02.verifyfs` plus the whole call with its history and
-    gate: {…, tpath: null | string, interval: int, clock: [int, …]} ↦ "nocbG", "cbG", "callsG" -/
-def verifycall (j : Json) : Except String Json := do
-  let base ← verifyfs j
-  let L ← getNat j "L"
-  let sizes ← getNats j "sizes"
-  let states ← getArr j "disk"
-  let flipsJ ← getArr j "flips"
-  let flips ← flipsJ.mapM fun f => do
-    let a ← f.getArr?
-    if h : a.size = 2 then return ((← a[0].getNat?), (← a[1].getNat?)) else throw "flip must be a pair"
-  let single ← getBool j "single"
-  let pathIsDir ← getBool j "pathIsDir"
-  let fd ← mkFs sizes states flips
+/-- the whole call with its history and gate ↦ "nocbG", "cbG", "callsG" -/
+def callReply (j : Json) (L : Nat) (sizes : List Nat) (fd : List (FState Nat))
+    (single pathIsDir : Bool) : Except String Json := do
   let stored : List (List Nat) := chunks L (mkFiles sizes).flatten
   let H : List Nat → List Nat := id
   let tpath : Option String := (getStr j "tpath").toOption
-  let interval ← getInt j "interval"
-  let clock ← getInts j "clock"
+  let interval := (getInt j "interval").toOption.getD 0
+  let clock := (getInts j "clock").toOption.getD []
   let (r0, _) := verifyCall H L sizes fd stored false single pathIsDir tpath interval clock
   let (r1, calls) := verifyCall H L sizes fd stored true single pathIsDir tpath interval clock
-  return base.mergeObj (jobj [
-    ("nocbG", resJson r0), ("cbG", resJson r1), ("callsG", jarr (calls.map callJson))])
+  return jobj [("nocbG", resJson r0), ("cbG", resJson r1), ("callsG", jarr (calls.map callJson))]
+
+def getFlips (j : Json) : Except String (List (Nat × Nat)) := do
+  let flipsJ ← getArr j "flips"
+  flipsJ.mapM fun f => do
+    let a ← f.getArr?
+    if h : a.size = 2 then return ((← a[0].getNat?), (← a[1].getNat?)) else throw "flip must be a pair"
+
+/-- op `c02.verifyfs`: as `c02.verify` over the full alphabet -/
+def verifyfs (j : Json) : Except String Json := do
+  let L ← getNat j "L"
+  let sizes ← getNats j "sizes"
+  let fd ← mkFs sizes (← getArr j "disk") (← getFlips j)
+  return fsReply L sizes fd (← getBool j "single") (← getBool j "pathIsDir")
+
+/-- op `c02.verifycall`: the reply of `c02.verifyfs` plus the whole call with its history and
+    gate: {…, tpath: null | string, interval: int, clock: [int, …]} ↦ "nocbG", "cbG", "callsG" -/
+def verifycall (j : Json) : Except String Json := do
+  let L ← getNat j "L"
+  let sizes ← getNats j "sizes"
+  let fd ← mkFs sizes (← getArr j "disk") (← getFlips j)
+  let single ← getBool j "single"
+  let pathIsDir ← getBool j "pathIsDir"
+  return (fsReply L sizes fd single pathIsDir).mergeObj (← callReply j L sizes fd single pathIsDir)
+
+/-- op `c02.verifyenv`: {…, cap, free}: the call with `free` descriptors left.  The reply is the
+    one of `c02.verifycall` on the description as the call experiences it (`effective`: files whose
+    `open()` hit the limit are unopenable files, errno EMFILE), "emfile" lists them, and
+    "envConsistent" says that `verifyEnv` on the given description is `verifyFs` on that one. -/
+def verifyenv (j : Json) : Except String Json := do
+  let L ← getNat j "L"
+  let sizes ← getNats j "sizes"
+  let fd ← mkFs sizes (← getArr j "disk") (← getFlips j)
+  let single ← getBool j "single"
+  let pathIsDir ← getBool j "pathIsDir"
+  let cap ← getNat j "cap"
+  let free ← getNat j "free"
+  let tpath : Option String := (getStr j "tpath").toOption
+  let eff := VerifyEnv.effective single tpath cap free L sizes fd
+  let stored : List (List Nat) := chunks L (mkFiles sizes).flatten
+  let H : List Nat → List Nat := id
+  let same := [false, true].all fun cb =>
+    let a := VerifyEnv.verifyEnv H L sizes fd stored cb single pathIsDir tpath 0 [] cap free
+    let b := verifyFs H L sizes eff stored cb single pathIsDir
+    a.1 == b.1 && a.2 == b.2
+  let emfile := (List.range sizes.length).filter fun k =>
+    match stateAt eff k, stateAt fd k with
+    | .noOpen _ e, .file _ => e == VerifyEnv.EMFILE
+    | .noOpen _ e, .readErr .. => e == VerifyEnv.EMFILE
+    | .noOpen _ e, .noOpen _ e0 => e == VerifyEnv.EMFILE && e0 != VerifyEnv.EMFILE
+    | .gone e, .gone e0 => e == VerifyEnv.EMFILE && e0 != VerifyEnv.EMFILE
+    | .gone e, .noOpen _ e0 => e == VerifyEnv.EMFILE && e0 != VerifyEnv.EMFILE
+    | _, _ => false
+  return ((fsReply L sizes eff single pathIsDir).mergeObj (← callReply j L sizes eff single pathIsDir)).mergeObj
+    (jobj [("emfile", jnats emfile), ("envConsistent", jbool same),
+           ("headroom", jbool (cap + 1 ≤ free))])
+
+/-- op `c02.verifyspelled`: the content path is a spelling in a world.
+    {L, sizes, single, fs: [node…] (as `c18.reusePaths`: {"k":"f","size","r","c"} | {"k":"d","r","x","e":[[name, ino]…]}
+    | {"k":"l","t": target}), cwd: "/…", path: spelling, names: [[component…]…] (listed names below
+    the top directory), contents: [[file index, size, [flipped offsets…]]…] (bytes of content id c),
+    dirSize, tpath?, interval?, clock?} -/
+def verifyspelled (j : Json) : Except String Json := do
+  let L ← getNat j "L"
+  let sizes ← getNats j "sizes"
+  let single ← getBool j "single"
+  let fs ← (← getArr j "fs").mapM fun nj => do
+    let k ← getStr nj "k"
+    match k with
+    | "f" => return Reuse.Node.file (← getNat nj "size") (← getBool nj "r") (← getNat nj "c")
+    | "d" =>
+      let es ← (← getArr nj "e").mapM fun e => do
+        let a ← e.getArr?
+        pure ((← (a[0]!).getStr?), (← (a[1]!).getNat?))
+      return Reuse.Node.dir (← getBool nj "r") (← getBool nj "x") es
+    | "l" => return Reuse.Node.link (Torf.Paths.parse (← getStr nj "t"))
+    | _ => throw s!"unknown node kind {k}"
+  let contents ← (← getArr j "contents").mapM fun cj => do
+    let a ← cj.getArr?
+    let i ← (a[0]!).getNat?
+    let n ← (a[1]!).getNat?
+    let fl ← (← (a[2]!).getArr?).toList.mapM fun x => x.getNat?
+    pure (fileContent i n (fl.map fun o => (i, o)))
+  let carr := contents.toArray
+  let w0 : Reuse.World := ⟨fs, [], 0, fun _ => (.undecodable, fun _ => .missing)⟩
+  let cwdStack ← match Reuse.resolve w0 (Torf.Paths.parse (← getStr j "cwd")) with
+    | .ok (.dir st) => pure st
+    | _ => throw "cwd does not resolve to a directory of the table"
+  let env : VerifySpelling.Env Nat := ⟨{ w0 with cwd := cwdStack }, fun c => carr.getD c [], ← getNat j "dirSize"⟩
+  let p := Torf.Paths.parse (← getStr j "path")
+  let names ← (← getArr j "names").mapM fun nj => do
+    (← nj.getArr?).toList.mapM fun x => x.getStr?
+  let fd := VerifySpelling.fdOf env single p names
+  let pathIsDir := Reuse.isdir env.w p
+  let locStr : String := match Reuse.resolve env.w p with
+    | .ok (.dir st) => s!"dir {st}"
+    | .ok (.file i) => s!"file {i}"
+    | .error e => s!"error {VerifySpelling.errnoOf e}"
+  return ((fsReply L sizes fd single pathIsDir).mergeObj (← callReply j L sizes fd single pathIsDir)).mergeObj
+    (jobj [("pathIsDir", jbool pathIsDir), ("resolvesTo", jstr locStr)])
 
 def handle (op : String) (j : Json) : Except String Json :=
   match op with
   | "c02.verify" => verify j
   | "c02.verifyfs" => verifyfs j
   | "c02.verifycall" => verifycall j
+  | "c02.verifyenv" => verifyenv j
+  | "c02.verifyspelled" => verifyspelled j
   | _ => throw s!"unknown op {op}"
 
 end Driver.C02
